@@ -176,7 +176,7 @@ func c19NoRecover(c *vlib.Ctx) {
 					s.one(t, b, "shrink-region")
 				}
 				c.Count("shrink_variants", len(sh))
-				sw := cp.ByteSweep(seed, c.Pick(160, 1500))
+				sw := cp.ByteSweepWide(seed, c.Pick(200, 1500))
 				for _, b := range sw {
 					s.one(t, b, "byte-sweep")
 				}
